@@ -178,6 +178,14 @@ ENTRY(d4_splat) { out_vec(c, glm::vec<4, TD, QH>(DS(0))); }
 ENTRY(d4_from_d3) { out_vec(c, glm::vec<4, TD, QH>(D3(0), DS(1))); }
 ENTRY(d3_from_d4) { out_vec(c, glm::vec<3, TD, QH>(D4(0))); }
 ENTRY(d4_dot) { c.out(glm::dot(D4(0), D4(1))); }
+// aligned double matrices: the products are written with splatX..W (convert_splat<L, double, Q, true>: permute / shuffle selectors that differ per level)
+#define DM4(a) in_mat<4, 4, TD, QH>(c, a)
+#define DM3(a) in_mat<3, 3, TD, QH>(c, a)
+ENTRY(dm4_mul_dm4) { out_mat(c, DM4(0) * DM4(1)); }
+ENTRY(dm4_mul_d4) { out_vec(c, DM4(0) * D4(1)); }
+ENTRY(dm3_mul_dm3) { out_mat(c, DM3(0) * DM3(1)); }
+ENTRY(dm3_mul_d3) { out_vec(c, DM3(0) * D3(1)); }
+ENTRY(d4_splats) { auto v = D4(0); out_vec(c, glm::splatX(v)); out_vec(c, glm::splatY(v)); out_vec(c, glm::splatZ(v)); out_vec(c, glm::splatW(v)); }
 ENTRY(d3_dot) { c.out(glm::dot(D3(0), D3(1))); }
 ENTRY(d3_cross) { out_vec(c, glm::cross(D3(0), D3(1))); }
 ENTRY(d4_length) { c.out(glm::length(D4(0))); }
